@@ -166,6 +166,22 @@ func runPSHist(payload []*Sx) *Sx {
 					r = L(A("bad-filename"))
 				}
 			}
+		case "loadjson":
+			// a document with the given bindings, unmarshalled INTO the current set object
+			tmp := cedar.NewPolicySet()
+			for _, b := range op.List[1:] {
+				tmp.Add(cedar.PolicyID(b.List[0].Str()), poolPolicy(int(mustInt64(b.List[1].Atom))))
+			}
+			doc, err := tmp.MarshalJSON()
+			if err != nil {
+				r = L(A("json-marshal-error"))
+				break
+			}
+			if err := ps.UnmarshalJSON(doc); err != nil {
+				r = L(A("json-unmarshal-error"))
+				break
+			}
+			r = bindingsSx(ps.Map())
 		case "authz":
 			dec, diag := ps.IsAuthorized(em, req)
 			var rs, es []string
